@@ -114,23 +114,17 @@ def runTarget (ws : List String) : String :=
         | 'm' => .missing
         | 'n' => .null
         | _ => .given }
-  let o := kv ws "o"
-  let (strip, kb, csv) := (flag o 0, flag o 1, flag o 2)
-  let env := Wq.toEnviron c l
-  let sc := Wq.toScope c l
-  let store := asgiStore sc.headers
-  let w := " ".intercalate
-    [encOut encS (Wq.wsgiMethod env), encOut encS (Wq.wsgiPath env strip), encS (Wq.wsgiQueryString env),
-     encParams (Wq.wsgiParams env kb csv), encS (Wq.wsgiRootPath env), encOut encS (Wq.wsgiScheme env),
-     encOut encH (Wq.wsgiHost env), encOut encPort (Wq.wsgiPort env), encOut encS (Wq.wsgiNetloc env),
-     encH (Wq.wsgiRemoteAddr env), encRoute (Wq.wsgiAccessRoute env)]
-  let a := match Wq.asgiQueryString sc, Wq.asgiParams sc kb csv with
+  let o : Wq.Opts := { strip := flag (kv ws "o") 0, keepBlank := flag (kv ws "o") 1, csv := flag (kv ws "o") 2 }
+  let vw := Wq.wsgiView (Wq.toEnviron c l) o
+  let va := Wq.asgiView (Wq.toScope c l) o
+  let enc (v : Wq.View) : String :=
+    match v.queryString, v.params with
     | some q, some ps => " ".intercalate
-      [encS (Wq.asgiMethod sc), encS (Wq.asgiPath sc strip), encS q, encParams ps, encS (Wq.asgiRootPath sc),
-       encS (Wq.asgiScheme sc), encOut encH (Wq.asgiHost sc store), encOut encPort (Wq.asgiPort sc store),
-       encS (Wq.asgiNetloc sc store), encOut encH (Wq.asgiRemoteAddr sc store), encOut encRoute (Wq.asgiAccessRoute sc store)]
+      [encOut encS v.method, encOut encS v.path, encS q, encParams ps, encS v.rootPath, encOut encS v.scheme, encOut encH v.host,
+       encOut encPort v.port, encOut encS v.netloc, encOut encH v.remoteAddr, encOut encRoute v.accessRoute]
     | _, _ => "CTOR"
-  "W " ++ w ++ " A " ++ a
+  "W " ++ enc vw ++ " A " ++ enc va
+
 
 partial def loop (h : IO.FS.Stream) : IO Unit := do
   let line ← h.getLine
